@@ -58,6 +58,12 @@ type Sched struct {
 	expect   []Point // points of the parent execution (divergence check while replaying)
 	Points   []Point
 	MaxSteps int
+	// RoundRobin selects the default (zero-delay) scheduler the delay bound is
+	// measured against: false = non-preemptive run-to-block (the running thread
+	// first, then ascending names); true = round-robin at every yield point (the
+	// cyclic successor of the thread that ran last comes first).  The two
+	// explore different neighbourhoods of schedules.
+	RoundRobin bool
 
 	clockArmed bool
 	clockAt    time.Time
@@ -195,7 +201,7 @@ func (s *Sched) Run() {
 		s.mu.Unlock()
 		sort.Slice(enabled, func(i, j int) bool { return enabled[i].name < enabled[j].name })
 		runningEnabled := false
-		if s.lastRun != nil {
+		if s.lastRun != nil && !s.RoundRobin {
 			for i, th := range enabled {
 				if th == s.lastRun {
 					copy(enabled[1:i+1], enabled[:i])
@@ -204,6 +210,15 @@ func (s *Sched) Run() {
 					break
 				}
 			}
+		}
+		if s.lastRun != nil && s.RoundRobin && len(enabled) > 1 {
+			// rotate: first the threads whose name follows the last-run thread's
+			k := 0
+			for k < len(enabled) && enabled[k].name <= s.lastRun.name {
+				k++
+			}
+			rot := append(append([]*thread{}, enabled[k:]...), enabled[:k]...)
+			enabled = rot
 		}
 		names := make([]string, 0, len(enabled)+1)
 		labels := make([]string, 0, len(enabled)+1)
